@@ -1,6 +1,7 @@
 CONSTANTS
   MaxCalls = 5
   HeomResets = TRUE
+  NefRecomputes = TRUE
   NrefPersists = FALSE
 SPECIFICATION Spec
 CONSTRAINT Bounded
